@@ -302,7 +302,9 @@ func runEP(c *eng.Ctx, d epDesc) {
 			c.Count("noise_measurements", 1)
 			if meaningful {
 				c.Count("meaningful_bounds", 1)
-				c.Max("max_ep_noise_over_bound_x1000", int64(1000*f64(st.Max)/bound))
+				if f64(st.Max) <= bound {
+					c.Max("max_passing_ep_noise_over_bound_x1000/"+path, int64(1000*f64(st.Max)/bound))
+				}
 			}
 			c.Check(f64(st.Max) <= bound, api+"|noise-above-worst-case-bound|"+pathSig+"|"+modeClass, func() string {
 				return fmt.Sprintf("%s input=%s mode=%s: |phase(out) - g*phase(in)|inf=2^%.1f bound=2^%.1f Q_level=2^%d", cfgs, pat, mode, st.MaxLog2, math.Log2(bound), Ql.BitLen())
